@@ -644,7 +644,16 @@ def seq(v):
 @model('std::vec::Vec::new', 'std::vec::Vec::with_capacity')
 def _vec_new(it, a, c): return VecV([])
 @model('std::vec::Vec::push')
-def _vec_push(it, a, c): deref(a[0]).items.append(a[1]); return UNIT()
+def _vec_push(it, a, c):
+    tgt = deref(a[0])
+    if isinstance(tgt, Str):                 # a byte string kept as text: append one concrete byte
+        if tgt.s is None or is_sym(a[1]): raise Unsupported('push on a symbolic byte string')
+        r = a[0]
+        while isinstance(r.get(), Ref): r = r.get()
+        extra = Str(chr(a[1]))
+        r.set(Str(tgt.s + chr(a[1]), canon=((list(tgt.canon) if isinstance(tgt.canon, list) else [tgt]) + [extra]) if tgt.canon else None))
+        return UNIT()
+    tgt.items.append(a[1]); return UNIT()
 @model('std::vec::Vec::pop')
 def _vec_pop(it, a, c):
     l = deref(a[0]).items
@@ -697,7 +706,10 @@ def _contains(it, a, c):
         if it.ctx.branch(struct_eq(it, x, a[1]), 'contains'): return True
     return False
 @model('core::slice::<impl [T]>::to_vec', 'std::slice::<impl [T]>::to_vec', 'std::slice::<impl [T]>::into_vec')
-def _to_vec(it, a, c): return VecV([dup(x) for x in seq(a[0])])
+def _to_vec(it, a, c):
+    if isinstance(deref(a[0]), Str):       # byte string of a text: stays a text value, marked as an owned byte vector
+        x = deref(a[0]); return x if (x.canon or x.s is None) else Str(x.s, canon=[x])
+    return VecV([dup(x) for x in seq(a[0])])
 @model('<std::vec::Vec as std::ops::Deref>::deref', '<std::vec::Vec as std::ops::DerefMut>::deref_mut', 'std::vec::Vec::as_slice',
        'std::vec::Vec::as_mut_slice', 'std::vec::Vec::as_ref')
 def _vec_deref(it, a, c): return a[0]
@@ -740,11 +752,11 @@ def _copy_from_slice(it, a, c):
     d = seq(a[0]); s = seq(a[1])
     if len(d) != len(s): raise PanicPath('copy_from_slice length mismatch')
     d[:] = [dup(x) for x in s]; return UNIT()
-@model('core::slice::<impl [T]>::concat', 'std::slice::<impl [T]>::concat')
+@model('core::slice::<impl [T]>::concat', 'std::slice::<impl [T]>::concat', 'std::slice::<impl [&[u8]]>::concat')
 def _concat(it, a, c):
     parts = [deref(x) for x in seq(a[0])]
     if parts and all(isinstance(x, Str) for x in parts):          # byte strings of text (denoms, addresses)
-        if all(x.s is not None for x in parts): return Str(''.join(x.s for x in parts))
+        if all(x.s is not None for x in parts): return Str(''.join(x.s for x in parts), canon=list(parts))      # canon list = an owned byte vector made of these segments
         return Str(None, sym=it.ctx.fresh('concat'), parts=[q for x in parts for q in ([x.s] if x.s is not None else (x.parts or [x]))])
     out = []
     for x in parts: out.extend(dup(y) for y in seq(x))
@@ -1364,3 +1376,20 @@ def _str_matches(it, a, c):
         out = [Ref([Str(pat.s)], 0)] * s.s.count(pat.s)
     else: raise Unsupported('matches pattern %r' % (pat,))
     return IterV(out)
+
+
+# ---------------------------------------------------------------- byte-string ordering ----------------
+def _bytes_cmp(it, a, c):
+    x, y = deref(a[0]), deref(a[1])
+    def raw(v):
+        v = deref(v)
+        if isinstance(v, Str):
+            if v.s is None: raise Unsupported('ordering of symbolic byte strings')
+            return list(raw_bytes(v))
+        items = seq(v)
+        if any(is_sym(b) for b in items): raise Unsupported('ordering of symbolic bytes')
+        return list(items)
+    p, q = raw(x), raw(y)
+    return Enum('std::cmp::Ordering', 'Less' if p < q else ('Equal' if p == q else 'Greater'), [])
+MODELS['<[u8] as std::cmp::Ord>::cmp'] = _bytes_cmp
+MODELS['<[T] as std::cmp::Ord>::cmp'] = _bytes_cmp
